@@ -10,7 +10,7 @@
    final division rounds). *)
 From Coq Require Import ZArith Reals.
 From Flocq Require Import Core BinarySingleNaN.
-From Tetl Require Import Lib.Base C12.Model C12.Spec C12.ProofsCast C12.ProofsAlgebra C12.FModel C12.FProofs C12.FProofs2 C12.FProofs3 C12.FProofs4 C12.FProofs5.
+From Tetl Require Import Lib.Base C12.Model C12.Spec C12.ProofsCast C12.ProofsAlgebra C12.FModel C12.FProofs C12.FProofs2 C12.FProofs3 C12.FProofs4 C12.FProofs5 C12.FProofs6.
 Local Open Scope Z_scope.
 
 (* duration_cast<duration<double, n2/d2>>(duration<Int, n1/d1>{c}) and the converting constructor
@@ -63,6 +63,15 @@ Proof.
   - apply fconv_m_any; assumption.
 Qed.
 
+(* the converting constructor into a floating representation participates exactly when the period
+   quotient is representable (detail::period_quotient<...>::representable): both terms of the reduced
+   conversion factor fit intmax_t *)
+Theorem C12_float_converting_constructor_participates : forall w1 n1 d1 w2 n2 d2,
+  period_ok n1 d1 = true -> period_ok n2 d2 = true ->
+  period_quotient_representable_m (Dur w1 n1 d1) (Dur w2 n2 d2)
+  = Val ((factor_num n1 d1 n2 d2 <=? max64) && (factor_den n1 d1 n2 d2 <=? max64)).
+Proof. exact period_quotient_representable_m_spec. Qed.
+
 (* floating-point SOURCE holding a whole number c: duration_cast<duration<int64_t, n2/d2>>
    (duration<double, n1/d1>{c}) is the exact truncation, although the double quotient is rounded
    before it is truncated: for |c * numerator| < 2^53 the rounding error is smaller than the
@@ -112,6 +121,18 @@ Proof.
   apply dd_cmp_exact; assumption.
 Qed.
 
+(* the same four statements under ONE computable hypothesis: the boolean guard [fsrc_ok] (FModel.v)
+   that the correspondence run evaluates to decide where to print the specification leg of the
+   double-source conversions implies every hypothesis above *)
+Theorem C12_float_source_guarded : forall w1 n1 d1 w2 n2 d2 c,
+  period_ok n1 d1 = true -> period_ok n2 d2 = true -> fsrc_ok n1 d1 n2 d2 c = true ->
+  let a := Dur w1 n1 d1 in let b := Dur w2 n2 d2 in
+  di_cast_m a b (d_of_Z c) = Val (cast_spec n1 d1 n2 d2 c)
+  /\ di_floor_m a b (d_of_Z c) = Val (floor_spec n1 d1 n2 d2 c)
+  /\ di_ceil_m a b (d_of_Z c) = Val (ceil_spec n1 d1 n2 d2 c)
+  /\ di_round_m a b (d_of_Z c) = Val (round_spec n1 d1 n2 d2 c).
+Proof. exact float_source_guarded. Qed.
+
 (* mixed representations: an int64-count duration with a double-count duration holding a whole
    number (common representation double): + - exact, < == exact; and a double -> double cast of a
    whole-valued count is the integer-source cast of the theorems above *)
@@ -144,11 +165,11 @@ Proof. exact fcast_spec_correct. Qed.
 (* Print Assumptions on the two groups (conjunctions) of the theorems above: every theorem of this
    file is a member of exactly one group; the axioms printed are those of Coq's classical reals. *)
 Definition C12_group_float_target :=
-  (conj C12_float_cast_correctly_rounded (conj C12_float_cast_exact_on_integers (conj C12_float_spec_is_rounded_rational C12_float_cast_always_finite))).
+  (conj C12_float_cast_correctly_rounded (conj C12_float_cast_exact_on_integers (conj C12_float_spec_is_rounded_rational (conj C12_float_cast_always_finite C12_float_converting_constructor_participates)))).
 Print Assumptions C12_group_float_target.
 
 Definition C12_group_float_source :=
-  (conj C12_float_source_cast_exact (conj C12_float_source_rounding_exact (conj C12_float_source_arith_exact C12_float_mixed_exact))).
+  (conj C12_float_source_cast_exact (conj C12_float_source_rounding_exact (conj C12_float_source_arith_exact (conj C12_float_mixed_exact C12_float_source_guarded)))).
 Print Assumptions C12_group_float_source.
 
 (* non-vacuity: 1500 ms -> 1.5 s; 90 min -> 1.5 h; -2^31 ticks of 1001/30000 s in thirds of a second *)
@@ -166,6 +187,7 @@ Proof. unfold fbounds. vm_compute. repeat split; intros; discriminate. Qed.
 Definition zof (o : out Z) : Z := match o with Val z => z | _ => -1 end.
 Example C12_float_source_nonvacuous :
   fbounds 1 1000 1 1 2500 /\ fboth_ok 1 1000 1 1 2500 2 /\ fboth_ok 1 1000 1 1 2500 3
+  /\ fsrc_ok 1 1000 1 1 2500 = true /\ fsrc_ok 1001 30000 1 3 (-2147483648) = true
   /\ zof (di_round_m (Dur 64 1 1000) (Dur 64 1 1) (d_of_Z 2500)) = 2
   /\ zof (di_round_m (Dur 64 1 1000) (Dur 64 1 1) (d_of_Z 3500)) = 4
   /\ zof (di_floor_m (Dur 64 1 1000) (Dur 64 1 1) (d_of_Z (-2500))) = -3.
